@@ -8,7 +8,7 @@ FIELD = {'p': ('u8', None), 'w': ('u16', None), 'i': ('u8', {'ignore': True}), '
 FUNCTIONS = ['<T as ::core::hash::Hash>::hash::<Rec> (educe expansion, struct and enum), observed through a recording Hasher']
 
 
-def build(shape, with_peq=False):
+def build(shape, with_peq=False, discs=None, repr_=None):
     kind, vs = shape
     variants = []
     for k, (vk, fl) in enumerate(vs):
@@ -23,11 +23,11 @@ def build(shape, with_peq=False):
             f = F(ty, S.FNAMES[i] if vk == 'named' else None, **a)
             f.code = c
             fields.append(f)
-        variants.append(V(S.VNAMES[k], vk, fields))
+        variants.append(V(S.VNAMES[k], vk, fields, disc=(discs[k] if discs and k < len(discs) else None)))
     traits = [('Hash', {})]
     if with_peq:
         traits.insert(0, ('PartialEq', {}))
-    return T(kind, 'Ty', variants, traits)
+    return T(kind, 'Ty', variants, traits, repr=repr_)
 
 
 def oracle_fns(t):
@@ -96,11 +96,33 @@ def emit(modname, cfgid, shape, with_peq=False, sp=None, pre='', t_override=None
     return Module(modname, cfgid, body, [h], sample=sample, functions=FUNCTIONS)
 
 
+# enums with explicit discriminants: the data fed for the variant must still separate variants
+DISC_CFGS = [
+    (('enum', [('unit', []), ('unit', []), ('unit', [])]), [1, None, 10], None),
+    (('enum', [('tuple', ['p']), ('tuple', ['p']), ('tuple', ['p'])]), [2, 0, None], 'u8'),
+    (('enum', [('unit', []), ('named', ['p', 'i']), ('unit', [])]), [1, None, 0], 'i8'),
+    (('enum', [('unit', []), ('unit', []), ('unit', []), ('unit', [])]), [3, 2, 1, 0], None),
+    (('enum', [('tuple', ['w']), ('unit', [])]), [1, 0], 'u16'),
+]
+
+
 def gen(tier, seed):
+    mods = _gen(tier, seed)
+    n = len(mods)
+    for sh, discs, r in DISC_CFGS:
+        if r is None and any(fl for _, fl in sh[1]):
+            continue
+        t = build(sh, False, discs, r)
+        mods.append(emit(f'm{n:04d}', f'{S.shape_id(sh)}/discriminants={discs}/repr={r}', sh, False, t_override=t))
+        n += 1
+    return mods
+
+
+def _gen(tier, seed):
     if tier == 'quick':
         shapes = S.quick_core(CODES) + S.seeded_extra(CODES, seed, 10)
     else:
-        shapes = S.struct_shapes(CODES) + S.enum_shapes_thorough(CODES) + S.seeded_extra(CODES, seed, 60)
+        shapes = S.struct_shapes(CODES, 4) + S.enum_shapes_thorough(CODES) + S.four_variant_enums(CODES) + S.seeded_extra(CODES, seed, 60)
     mods = []
     for n, sh in enumerate(shapes):
         has_m = any('m' in fl for _, fl in sh[1])
@@ -112,7 +134,7 @@ def gen(tier, seed):
 RULE = ('one config = shape x per-field {plain u8, plain u16, ignored, method hash_m}; optionally PartialEq educed with the same ignore choices. '
         'Both values arbitrary incl. variant; the recording Hasher logs every write_* call as (kind, value), so equality of records is equality of the data fed for any hasher. '
         'Non-trivial = harness passed and both the same-key and the different-key witness were SATISFIED.')
-BOUNDS = dict(max_fields=3, max_variants=3, recorder_capacity=6, unwind=8, field_types=['u8', 'u16'],
+BOUNDS = dict(max_fields='3 (quick), 4 (thorough)', max_variants='3 (quick), 4 (thorough)', recorder_capacity=6, unwind=8, field_types=['u8', 'u16'],
               outside=['>3 fields/variants', 'field types whose own hashing is not injective', 'unions (C20)'])
 ASSUME = ['Kani 0.68 / CBMC 6.11 / CaDiCaL; rustc nightly-2026-08-21 x86_64 dev profile',
           'the variant prefix is checked as "some function of the variant that separates variants", not as a usize index',
